@@ -189,7 +189,23 @@ func (u *Universe) verifyFunc(fi *FuncInfo) (obls []*Obl, rep FuncReport) {
 		}
 	}
 	if firstRet != nil {
-		e.obls = append(e.obls, &Obl{Name: name + "/cover#return", Fn: name, Kind: "cover", PC: append([]string(nil), firstRet.pc...), Goal: "false", Expect: "sat", BV: e.bv})
+		// some return path must be feasible: the disjunction of (up to eight) return paths
+		var alts []string
+		for _, o := range outs {
+			if o.st.dead || (o.kind != Return && o.kind != Normal) || len(alts) >= 8 {
+				continue
+			}
+			if len(o.st.pc) == 0 {
+				alts = append(alts, "true")
+				continue
+			}
+			alts = append(alts, "(and "+strings.Join(o.st.pc, " ")+")")
+		}
+		pc := []string{"(or " + strings.Join(alts, " ") + ")"}
+		if len(alts) == 1 {
+			pc = append([]string(nil), firstRet.pc...)
+		}
+		e.obls = append(e.obls, &Obl{Name: name + "/cover#return", Fn: name, Kind: "cover", PC: pc, Goal: "false", Expect: "sat", BV: e.bv})
 	} else if len(con.Ensures) > 0 {
 		rep.Error = "no return path reached: postconditions hold vacuously"
 		return nil, rep
